@@ -124,7 +124,7 @@ Lemma rename_rule_spec : forall r n rr n',
     exists vm, vm_ok n n' vm /\ (n <= n')%N /\
                prem rr = map (ren_atom vm) (prem r) /\ concl rr = map (ren_atom vm) (concl r) /\
                Forall (covered_atom vm) (prem r) /\ Forall (covered_atom vm) (concl r) /\
-               filters rr = filters r.
+               filters rr = map (rename_filter vm) (filters r).
 Proof.
   intros r n rr n' H. unfold rename_rule_variables in H.
   destruct (rename_atoms (prem r) ([], n)) as [ps [vm1 n1]] eqn:E1.
@@ -205,3 +205,50 @@ Proof.
 Qed.
 Lemma ren_atom_below : forall n0 n vm a, vm_ok n0 n vm -> covered_atom vm a -> atom_below n (ren_atom vm a).
 Proof. intros n0 n vm [[s p] o] Hok (H1 & H2 & H3). cbn. repeat split; eauto using ren_below. Qed.
+
+(* ---- filters under renaming ------------------------------------------------------------------------------ *)
+Lemma pull_name : forall vm nu x, pull vm nu x = nu (rename_name vm x).
+Proof. intros vm nu x. unfold pull, rename_name. destruct (lookup x vm); reflexivity. Qed.
+
+Lemma filter_holds_pull : forall num vm nu f,
+    filter_holds num (pull vm nu) f = filter_holds num nu (rename_filter vm f).
+Proof.
+  intros num vm nu [x op [z|y]]; unfold filter_holds; cbn; now rewrite !pull_name.
+Qed.
+
+Lemma ren_var_name : forall vm x, ren vm (Var x) = Var (rename_name vm x).
+Proof. intros vm x. cbn. unfold rename_name. destruct (lookup x vm); reflexivity. Qed.
+
+Lemma push_name : forall n0 n vm mu nu x,
+    vm_ok n0 n vm -> lookup x vm <> None -> push vm mu nu (rename_name vm x) = mu x.
+Proof.
+  intros n0 n vm mu nu x Hok Hc.
+  pose proof (eval_push n0 n vm mu nu (Var x) Hok Hc) as H. now rewrite ren_var_name in H.
+Qed.
+
+Lemma filter_holds_push : forall num n0 n vm mu nu f,
+    vm_ok n0 n vm -> (forall x, In x (filter_vars f) -> lookup x vm <> None) ->
+    filter_holds num (push vm mu nu) (rename_filter vm f) = filter_holds num mu f.
+Proof.
+  intros num n0 n vm mu nu [x op [z|y]] Hok Hc; unfold filter_holds; cbn in *.
+  - rewrite (push_name n0 n) by auto. reflexivity.
+  - rewrite !(push_name n0 n) by auto. reflexivity.
+Qed.
+
+Lemma rename_name_below : forall n0 n vm x, vm_ok n0 n vm -> lookup x vm <> None -> below n (rename_name vm x).
+Proof.
+  intros n0 n vm x Hok Hc. pose proof (ren_below n0 n vm (Var x) Hok Hc) as H. now rewrite ren_var_name in H.
+Qed.
+
+Lemma filter_vars_rename : forall vm f, filter_vars (rename_filter vm f) = map (rename_name vm) (filter_vars f).
+Proof. intros vm [x op [z|y]]; reflexivity. Qed.
+
+Lemma covered_of_prem_var : forall vm ps x, Forall (covered_atom vm) ps -> In x (atoms_vars ps) -> lookup x vm <> None.
+Proof.
+  intros vm ps x Hc Hx. unfold atoms_vars in Hx. apply in_flat_map in Hx. destruct Hx as ([[s p] o] & Hp & Hx).
+  rewrite Forall_forall in Hc. destruct (Hc _ Hp) as (C1 & C2 & C3).
+  unfold atom_vars in Hx. rewrite !in_app_iff in Hx. destruct Hx as [Hx|[Hx|Hx]].
+  - destruct s as [y|c]; [|contradiction]. destruct Hx as [<-|[]]. exact C1.
+  - destruct p as [y|c]; [|contradiction]. destruct Hx as [<-|[]]. exact C2.
+  - destruct o as [y|c]; [|contradiction]. destruct Hx as [<-|[]]. exact C3.
+Qed.
